@@ -19,7 +19,11 @@ JOIN = ["  ", " and ", "\t", " | "]
 
 
 def pep_shaped(vp):
-    """v? PART(.PART)* then optionally [sep?(TAG|PYTAG)[NUM]?] — the README's PEP 440-compatible shapes"""
+    """v? PART(.PART)* then optionally [sep?(TAG|PYTAG)[NUM]?] — the README's PEP 440-compatible shapes.
+    0Y / 0G have no unpadded substitute (a year is the FIRST component, where PEP 440 and the README allow the leading zero: '06'
+    is written, packaging prints '6'), so the fixtures, which expect the normal form literally, stay away from them."""
+    if "0Y" in vp or "0G" in vp:
+        return False
     return re.match(r"^v?(YYYY|YY|0Y|MM|0M|DD|0D|MAJOR|MINOR|PATCH|BUILD|BLD|INC0|INC1|Q|WW|0W|UU|0U|VV|0V|JJJ|00J|GGGG|GG|0G)"
                     r"(\.?(?:MM|0M|DD|0D|MAJOR|MINOR|PATCH|BUILD|BLD|INC0|INC1|Q|WW|0W|UU|0U|VV|0V|JJJ|00J))*"
                     r"(\[?-?(TAG|PYTAG)(\[?NUM\]?)?\]?)?$", vp) is not None   # ('.' before the tag is kept by the conversion: 2025.1.b0, an odd shape)
